@@ -12,46 +12,40 @@ from ..cfg import CFG, EXIT, RAISE
 from ..model import calls_in, call_name, kwarg, real_body, u
 
 MOD = "hugr.qsystem.result"
+from ..paths import summaries
+from ..tmpl import T, tfind, tmatch
 
 
 def r1_alphabet(ctx, m) -> None:
+    """path summaries of _cast_primitive_bit: guard-clause, if/else and negated spellings coincide"""
     fn = m.functions.get("_cast_primitive_bit")
     if fn is None:
         ctx.broken("anchor vanished: _cast_primitive_bit")
     p = fn.args.args[0].arg
-    g = CFG(real_body(fn))
-    rets = [(n, s) for n, s in g.stmt.items() if isinstance(s, ast.Return)]
-    raises = [(n, s) for n, s in g.stmt.items() if isinstance(s, ast.Raise)]
-    ctx.check(bool(raises) and all("ValueError" in u(s.exc) for n, s in raises) and RAISE in g.reachable(0), "C19.R1", "_cast_primitive_bit: rejects non-bits", m.path, fn.lineno,
-              "a value that is not a bit must be rejected with ValueError", fn)
-    dom = g.dominators()
-    for n, s in rets:
-        # admitted classes on this path: the guard that dominates the return
-        tests = []
-        for d in dom[n]:
-            if g.kind.get(d) != "test":
-                continue
-            t_succ = [x for x in g.succ[d] if g.label.get((d, x)) == "T"]
-            # the return lies on the true branch: unreachable once the true edge is cut
-            if t_succ and n not in g.reachable(0, avoid_edges=frozenset({(d, t_succ[0])})):
-                tests.append(g.stmt[d])
-        guard = " and ".join(u(t) for t in tests)
-        admits_int = f"isinstance({p}, int)" in guard or f"isinstance({p}, (int, bool))" in guard or f"isinstance({p}, (bool, int))" in guard
-        in01 = any(x in guard.replace(" ", "") for x in (f"{p}in{{0,1}}", f"{p}in(0,1)", f"{p}in[0,1]", f"{p}in{{1,0}}")) or \
-            (f"{p} == 0" in guard and f"{p} == 1" in guard)
-        if not ctx.check(admits_int and in01, "C19.R1", "_cast_primitive_bit: guard", m.path, s.lineno,
-                         f"every path that returns a character must be guarded by isinstance({p}, int) and {p} in {{0, 1}}; other values must raise ValueError", s, found=guard or "<unguarded>"):
+    ps = ctx.paths(f"{MOD}._cast_primitive_bit")
+    rets = [q for q in ps if q.kind == "return"]
+    others = [q for q in ps if q.kind != "return"]
+    ctx.check(bool(others) and all(q.kind == "raise" and q.value is not None and "ValueError" in u(q.value) for q in others), "C19.R1", "_cast_primitive_bit: rejects non-bits",
+              m.path, fn.lineno, "a value that is not a bit must be rejected with ValueError", fn)
+    for q in rets:
+        taken = [u(t) for t, k in q.tests if k]
+        guard = " and ".join(taken)
+        admits_int = any(t in (f"isinstance({p}, int)", f"isinstance({p}, (int, bool))", f"isinstance({p}, (bool, int))", f"isinstance({p}, int | bool)", f"isinstance({p}, bool | int)") for t in taken)
+        in01 = any(t.replace(" ", "") in (f"{p}in{{0,1}}", f"{p}in(0,1)", f"{p}in[0,1]", f"{p}in{{1,0}}", f"{p}in(1,0)", f"{p}in[1,0]") for t in taken) or \
+            any({(u(t), k) for t, k in q.tests} >= s_ for s_ in ({(f"{p} == 0", False), (f"{p} == 1", True)}, {(f"{p} == 0", True)}))
+        node = q.node or fn
+        if not ctx.check(admits_int and in01, "C19.R1", "_cast_primitive_bit: guard", m.path, node.lineno,
+                         f"every path that returns a character must be guarded by isinstance({p}, int) and {p} in {{0, 1}}; other values must raise ValueError", node, found=guard or "<unguarded>"):
             continue
         # result alphabet: bool is a subclass of int, so the admitted classes are {int, bool}; str(True) == 'True'
-        e = s.value
+        se = q.value_text()
         idiom = None
-        se = u(e)
-        if se in (f"str(int({p}))", f"'1' if {p} else '0'", f"'01'[{p}]", f"'01'[int({p})]", f"'0' if not {p} else '1'", f"'1' if {p} == 1 else '0'", f"'0' if {p} == 0 else '1'"):
+        if se in (f"str(int({p}))", f"'1' if {p} else '0'", f"'01'[{p}]", f"'01'[int({p})]", f"'0' if not {p} else '1'", f"'1' if {p} == 1 else '0'", f"'0' if {p} == 0 else '1'", "'0'", "'1'"):
             idiom = "maps both int and bool to '0'/'1'"
         bad = se in (f"str({p})", f"repr({p})", f"f'{{{p}}}'", f"format({p})", f"'{{}}'.format({p})", f"'%s' % {p}")
         if bad:
-            ctx.fail("C19.R1", "_cast_primitive_bit: alphabet", m.path, s.lineno,
-                     f"`{se}` renders a bool as 'True'/'False': bools pass the isinstance(int) guard, so characters other than '0'/'1' are produced", s,
+            ctx.fail("C19.R1", "_cast_primitive_bit: alphabet", m.path, node.lineno,
+                     f"`{se}` renders a bool as 'True'/'False': bools pass the isinstance(int) guard, so characters other than '0'/'1' are produced", node,
                      expected="str(int(data))", found=se)
         elif idiom:
             ctx.ok("C19.R1", "_cast_primitive_bit: alphabet", f"{se}: {idiom}")
@@ -60,10 +54,11 @@ def r1_alphabet(ctx, m) -> None:
 
 
 def r2_replay_order(ctx, m, shot) -> ast.For | None:
-    fn = shot.methods.get("to_register_bits")
-    if fn is None:
+    fn_o = shot.methods.get("to_register_bits")
+    if fn_o is None:
         ctx.broken("anchor vanished: QsysShot.to_register_bits")
-    loops = [n for n in real_body(fn) if isinstance(n, ast.For)]
+    fn = ctx.cfn(f"{MOD}.QsysShot.to_register_bits")
+    loops = [n for n in fn.body if isinstance(n, ast.For)]
     if len(loops) != 1:
         ctx.broken("QsysShot.to_register_bits: expected one replay loop")
     lp = loops[0]
@@ -71,22 +66,38 @@ def r2_replay_order(ctx, m, shot) -> ast.For | None:
     seen = set()
     while isinstance(it, ast.Name) and it.id not in seen:
         seen.add(it.id)
-        b = [s.value for s in real_body(fn) if isinstance(s, ast.Assign) and isinstance(s.targets[0], ast.Name) and s.targets[0].id == it.id]
+        b = [s_.value for s_ in fn.body if isinstance(s_, ast.Assign) and isinstance(s_.targets[0], ast.Name) and s_.targets[0].id == it.id]
         if len(b) != 1:
             break
         it = b[0]
     src = u(it)
-    ok = src in ("self.entries", "iter(self.entries)", "list(self.entries)")
+    ok = src in ("self.entries", "iter(self.entries)", "[*self.entries]", "(*self.entries,)")
     ctx.check(ok, "C19.R2", "QsysShot.to_register_bits: replay order", m.path, lp.lineno,
               f"the entries must be replayed in order as writes, but the loop iterates `{src}`: a dictionary keeps each tag at its *first* position, so with "
               "interleaved writes (a[0]=1; a=[0,0]; a[0]=1) a later write is applied before an earlier one and 'later writes override earlier ones' fails", lp,
               expected="self.entries", found=src)
-    ct = shot.methods.get("collate_tags")
-    cl = [n for n in ast.walk(ct) if isinstance(n, ast.For)] if ct else []
-    ok = len(cl) == 1 and u(cl[0].iter) == "self.entries" and any(call_name(c) == "append" and u(c.args[0]) == u(cl[0].target.elts[1]) and
-                                                                   u(c.func.value) == f"tags[{u(cl[0].target.elts[0])}]" for c in calls_in(cl[0]))
-    ctx.check(ok, "C19.R2", "QsysShot.collate_tags: entry order", m.path, ct.lineno if ct else 1,
-              "collation appends, per tag, every value of the shot in entry order", ct)
+    ct_o = shot.methods.get("collate_tags")
+    ok = False
+    if ct_o is not None:
+        ct = ctx.cfn(f"{MOD}.QsysShot.collate_tags", subst=False)
+        cl = [n for n in ct.body if isinstance(n, ast.For)]
+        if len(cl) == 1 and u(cl[0].iter) == "self.entries" and isinstance(cl[0].target, ast.Tuple) and len(cl[0].target.elts) == 2:
+            t_, d_ = u(cl[0].target.elts[0]), u(cl[0].target.elts[1])
+            lps = summaries(ct.body[: ct.body.index(cl[0])] + cl[0].body)
+            ok = bool(lps)
+            acc = None
+            for q in lps:
+                h = q.find_effect(f"L_acc[{t_}].append({d_})") or q.find_effect(f"L_acc.setdefault({t_}, []).append({d_})")
+                ok = ok and len(h) == 1 and q.kind == "fall" and not q.tests
+                acc = h[0][2]["L_acc"] if h else acc
+            rets = [r for r in ast.walk(ct) if isinstance(r, ast.Return)]
+            ok = ok and acc is not None and len(rets) == 1 and u(rets[0].value) in (acc, f"dict({acc})", f"{{**{acc}}}")
+            # acc[t].append needs a default list per key
+            if ok and not any(q.find_effect(f"L_acc.setdefault({t_}, []).append({d_})") for q in lps):
+                init = [s_ for s_ in ct.body if isinstance(s_, (ast.Assign, ast.AnnAssign)) and u(s_.targets[0] if isinstance(s_, ast.Assign) else s_.target) == acc]
+                ok = len(init) == 1 and u(init[0].value) == "defaultdict(list)"
+    ctx.check(ok, "C19.R2", "QsysShot.collate_tags: entry order", m.path, ct_o.lineno if ct_o else 1,
+              "collation appends, per tag, every value of the shot in entry order", ct_o)
     return lp
 
 
@@ -119,146 +130,229 @@ def r3_grammar(ctx, m) -> None:
 
 
 def r4_write_semantics(ctx, m, shot, lp) -> None:
-    fn = shot.methods["to_register_bits"]
+    """stated over the path summaries of one iteration of the replay loop: every local is replaced by its definition"""
+    fn_o = shot.methods["to_register_bits"]
+    fn = ctx.cfn(f"{MOD}.QsysShot.to_register_bits", subst=False)
+    loops = [n for n in fn.body if isinstance(n, ast.For)]
+    lp = loops[0]
     tagv, datav = (u(lp.target.elts[0]), u(lp.target.elts[1])) if isinstance(lp.target, ast.Tuple) else ("?", "?")
-    # locate the indexed arm
-    ifs = [n for n in lp.body if isinstance(n, ast.If) and "match" in u(n.test) and "None" in u(n.test)]
-    ma = [s for s in lp.body if isinstance(s, ast.Assign) and isinstance(s.value, ast.Call) and u(s.value.func) in ("re.match", "REG_INDEX_PATTERN.match", "re.fullmatch", "REG_INDEX_PATTERN.fullmatch")]
-    ok = len(ma) == 1 and ("REG_INDEX_PATTERN" in u(ma[0].value)) and tagv in [u(a) for a in ma[0].value.args]
-    ctx.check(ok, "C19.R4", "to_register_bits: tags are parsed with REG_INDEX_PATTERN", m.path, lp.lineno, "", lp)
-    if len(ifs) != 1:
+    pre = fn.body[: fn.body.index(lp)]
+    lps = [q for q in summaries(pre + lp.body)]
+    # the accumulator: the dict the result is read from
+    rets = [r for r in ast.walk(ctx.cfn(f"{MOD}.QsysShot.to_register_bits")) if isinstance(r, ast.Return)]
+    e = tmatch(rets[0].value, T("{c0: ''.join(c1) for c0, c1 in L_acc.items()}")) if len(rets) == 1 else None
+    ctx.check(e is not None, "C19.R4", "to_register_bits: bitstrings joined in position order", m.path, fn_o.lineno, "", fn_o, found=u(rets[0].value) if rets else "")
+    if e is None:
+        return
+    acc = e["L_acc"]
+    forms = [f"re.match(REG_INDEX_PATTERN, {tagv})", f"REG_INDEX_PATTERN.match({tagv})", f"re.fullmatch(REG_INDEX_PATTERN, {tagv})", f"REG_INDEX_PATTERN.fullmatch({tagv})"]
+    M = None
+    for q in lps:
+        for t, k in q.tests:
+            for f in forms:
+                if u(t) == f"{f} is not None":
+                    M = f
+    ctx.check(M is not None, "C19.R4", "to_register_bits: tags are parsed with REG_INDEX_PATTERN", m.path, lp.lineno, "", lp)
+    if M is None:
         ctx.broken("to_register_bits: indexed arm not found")
-    arm = ifs[0]
-    src = u(arm)
-    grp = [s for s in arm.body if isinstance(s, ast.Assign) and isinstance(s.targets[0], ast.Tuple) and "groups()" in u(s.value)]
-    ok = len(grp) == 1 and len(grp[0].targets[0].elts) == 2
-    name_v, idx_s = (u(grp[0].targets[0].elts[0]), u(grp[0].targets[0].elts[1])) if ok else ("?", "?")
-    idx_assign = [s for s in arm.body if isinstance(s, ast.Assign) and u(s.value) == f"int({idx_s})"]
-    ok = ok and len(idx_assign) == 1
-    idx_v = u(idx_assign[0].targets[0]) if ok else "?"
-    ctx.check(ok, "C19.R4", "to_register_bits: name and index come from the two groups in order", m.path, arm.lineno,
-              "group 1 is the register name, group 2 its decimal index", arm)
-    # creation, growth, assignment
-    create = [n for n in ast.walk(arm) if isinstance(n, ast.If) and u(n.test) in (f"{name_v} not in reg_bits",)]
-    ok_c = len(create) == 1 and any(isinstance(s, ast.Assign) and u(s.targets[0]) == f"reg_bits[{name_v}]" and u(s.value) in (f"['0'] * ({idx_v} + 1)", f"['0' for _ in range({idx_v} + 1)]") for s in create[0].body)
-    ctx.check(ok_c, "C19.R4", "to_register_bits: register created with index+1 zeros", m.path, arm.lineno,
-              "an indexed write to an unknown register creates it with n+1 zero bits", arm)
-    grow = [n for n in ast.walk(arm) if isinstance(n, ast.If) and u(n.test) in (f"{idx_v} >= len(bitlst)", f"len(bitlst) <= {idx_v}", f"len(bitlst) < {idx_v} + 1")]
-    ok_g = len(grow) == 1 and any(u(s) in (f"bitlst += ['0'] * ({idx_v} - len(bitlst) + 1)", f"bitlst.extend(['0'] * ({idx_v} - len(bitlst) + 1))", f"bitlst.extend(['0'] * ({idx_v} + 1 - len(bitlst)))") for s in grow[0].body)
-    alias = any(isinstance(s, ast.Assign) and u(s.targets[0]) == "bitlst" and u(s.value) == f"reg_bits[{name_v}]" for s in arm.body)
-    ctx.check(ok_g and alias, "C19.R4", "to_register_bits: register grown with zeros to index+1", m.path, arm.lineno,
-              "a write beyond the current length grows the register in place with '0' up to n+1 bits", arm)
-    wr = [s for s in arm.body if isinstance(s, ast.Assign) and u(s.targets[0]) == f"bitlst[{idx_v}]"]
-    ok_w = len(wr) == 1 and u(wr[0].value) == f"_cast_primitive_bit({datav})"
-    ctx.check(ok_w, "C19.R4", "to_register_bits: one bit written at position n", m.path, arm.lineno, "the indexed arm writes exactly position n with the casted bit", arm)
-    ctx.check(isinstance(arm.body[-1], ast.Continue) or bool(arm.orelse), "C19.R4", "to_register_bits: arms are exclusive", m.path, arm.lineno,
-              "an indexed tag must not also be treated as a whole-register write", arm)
+    indexed = [q for q in lps if any(u(t) == f"{M} is not None" and k for t, k in q.tests)]
+    whole = [q for q in lps if any(u(t) == f"{M} is not None" and not k for t, k in q.tests)]
+    name, idx = f"{M}.groups()[0]", f"int({M}.groups()[1])"
+    reg = f"{acc}[{name}]"
+
+    def stores(q):
+        return [x for x in q.effects if isinstance(x, (ast.Assign, ast.AugAssign)) and u(x.targets[0] if isinstance(x, ast.Assign) else x.target).startswith(f"{acc}[")] + \
+               [x for x in q.effects if isinstance(x, ast.Expr) and isinstance(x.value, ast.Call) and isinstance(x.value.func, ast.Attribute) and u(x.value.func.value).startswith(f"{acc}[")
+                and x.value.func.attr in ("extend", "append", "insert")]
+    # name and index from the two groups, in order: every store of the indexed arm addresses acc[group 1] (and position int(group 2))
+    ok = bool(indexed) and all(stores(q) and all(u(x.targets[0] if isinstance(x, ast.Assign) else (x.target if isinstance(x, ast.AugAssign) else x.value.func.value)).startswith(reg) for x in stores(q)) for q in indexed)
+    ctx.check(ok, "C19.R4", "to_register_bits: name and index come from the two groups in order", m.path, lp.lineno,
+              "group 1 is the register name, group 2 its decimal index", lp, found="; ".join(" | ".join(u(x) for x in stores(q)) for q in indexed)[:300])
+    # creation
+    ok_c = bool(indexed)
+    for q in indexed:
+        known = [k for t, k in q.tests if u(t) == f"{name} in {acc}"]
+        cr = [x for x in q.effects if isinstance(x, ast.Assign) and u(x.targets[0]) == reg]
+        if not known:
+            ok_c = False
+        elif known[0]:
+            ok_c = ok_c and not cr
+        else:
+            ok_c = ok_c and len(cr) == 1 and u(cr[0].value) in (f"['0'] * ({idx} + 1)", f"['0' for c0 in range({idx} + 1)]", f"({idx} + 1) * ['0']")
+    ctx.check(ok_c, "C19.R4", "to_register_bits: register created with index+1 zeros", m.path, lp.lineno,
+              "an indexed write to an unknown register creates it with n+1 zero bits", lp)
+    # growth
+    ok_g = bool(indexed)
+    for q in indexed:
+        short = [k for t, k in q.tests if u(t) in (f"{idx} < len({reg})", f"len({reg}) <= {idx}")]
+        short = [(not k) if u(t) == f"{idx} < len({reg})" else k for t, k in q.tests if u(t) in (f"{idx} < len({reg})", f"len({reg}) <= {idx}")]
+        gr = [x for x in q.effects if (isinstance(x, ast.AugAssign) and u(x.target) == reg) or
+              (isinstance(x, ast.Expr) and isinstance(x.value, ast.Call) and u(x.value.func) == f"{reg}.extend")]
+        if not short:
+            ok_g = False
+        elif short[0]:
+            v = u(gr[0].value) if gr and isinstance(gr[0], ast.AugAssign) else (u(gr[0].value.args[0]) if gr else "")
+            ok_g = ok_g and len(gr) == 1 and v in (f"['0'] * ({idx} - len({reg}) + 1)", f"['0'] * ({idx} + 1 - len({reg}))")
+        else:
+            ok_g = ok_g and not gr
+    ctx.check(ok_g, "C19.R4", "to_register_bits: register grown with zeros to index+1", m.path, lp.lineno,
+              "a write beyond the current length grows the register in place with '0' up to n+1 bits", lp)
+    # the write
+    ok_w = bool(indexed)
+    for q in indexed:
+        wr = [x for x in q.effects if isinstance(x, ast.Assign) and u(x.targets[0]) == f"{reg}[{idx}]"]
+        ok_w = ok_w and len(wr) == 1 and u(wr[0].value) == f"_cast_primitive_bit({datav})" and q.effects.index(wr[0]) == max(q.effects.index(x) for x in stores(q))
+    ctx.check(ok_w, "C19.R4", "to_register_bits: one bit written at position n", m.path, lp.lineno, "the indexed arm writes exactly position n with the casted bit", lp)
+    ok_x = all(not any(isinstance(x, ast.Assign) and u(x.targets[0]) == f"{acc}[{tagv}]" for x in q.effects) for q in indexed) and bool(whole)
+    ctx.check(ok_x, "C19.R4", "to_register_bits: arms are exclusive", m.path, lp.lineno,
+              "an indexed tag must not also be treated as a whole-register write", lp)
     # whole-register arm
-    rest = lp.body[lp.body.index(arm) + 1:] + arm.orelse
-    whole = [s for n in rest for s in ast.walk(n) if isinstance(s, ast.Assign) and u(s.targets[0]) == f"reg_bits[{tagv}]"]
-    vals = sorted(u(s.value) for s in whole)
-    ok = len(whole) == 2 and any(v == f"[_cast_primitive_bit({datav})]" for v in vals) and any(
-        v.startswith("[_cast_primitive_bit(") and " for " in v and v.endswith(" in vs]") for v in vals)
-    ctx.check(ok, "C19.R4", "to_register_bits: whole-register write overwrites", m.path, lp.lineno,
-              "any other tag overwrites the whole register with the casted bit or list of bits", lp, found="; ".join(vals))
+    ok = bool(whole)
+    vals = []
+    seen = set()
+    for q in whole:
+        st = stores(q)
+        is_list = [k for t, k in q.tests if u(t) == f"isinstance({datav}, list)"]
+        vals += [u(x) for x in st]
+        if len(st) != 1 or not isinstance(st[0], ast.Assign) or u(st[0].targets[0]) != f"{acc}[{tagv}]" or not is_list:
+            ok = False
+            continue
+        seen.add(is_list[0])
+        want = f"[_cast_primitive_bit(c0) for c0 in {datav}]" if is_list[0] else f"[_cast_primitive_bit({datav})]"
+        ok = ok and _alpha(u(st[0].value)) == want
+    ctx.check(ok and seen == {True, False}, "C19.R4", "to_register_bits: whole-register write overwrites", m.path, lp.lineno,
+              "any other tag overwrites the whole register with the casted bit or list of bits", lp, found="; ".join(vals)[:300])
     # every stored character is a casted bit or the literal '0'
-    stores = [s for s in ast.walk(lp) if isinstance(s, (ast.Assign, ast.AugAssign)) and ("reg_bits[" in u(s.targets[0] if isinstance(s, ast.Assign) else s.target) or "bitlst" in u(s.targets[0] if isinstance(s, ast.Assign) else s.target))]
-    bad = [s for s in stores if not ("_cast_primitive_bit(" in u(s.value) or "'0'" in u(s.value) or u(s.value) == f"reg_bits[{name_v}]")]
-    ctx.check(not bad, "C19.R4", "to_register_bits: alphabet of stored characters", m.path, (bad[0].lineno if bad else lp.lineno),
+    bad = []
+    for q in lps:
+        for x in stores(q):
+            v = x.value if isinstance(x, (ast.Assign, ast.AugAssign)) else x.value.args[0]
+            txt = u(v)
+            if not ("_cast_primitive_bit(" in txt or "'0'" in txt):
+                bad.append(x)
+    ctx.check(not bad, "C19.R4", "to_register_bits: alphabet of stored characters", m.path, (getattr(bad[0], "lineno", lp.lineno) if bad else lp.lineno),
               "every character stored must come from _cast_primitive_bit or be the filler '0'", bad[0] if bad else None)
-    rets = [r for r in ast.walk(fn) if isinstance(r, ast.Return)]
-    ok = len(rets) == 1 and u(rets[0].value) == "{reg: ''.join(bits) for reg, bits in reg_bits.items()}"
-    ctx.check(ok, "C19.R4", "to_register_bits: bitstrings joined in position order", m.path, fn.lineno, "", fn, found=u(rets[0].value) if rets else "")
+
+
+def _alpha(txt: str) -> str:
+    """comprehension variables renamed c0, c1, .. (path substitution keeps the source's names)"""
+    from ..canon import expr_norm
+    try:
+        st = ast.parse(txt, mode="exec").body
+        return u(expr_norm(st)[0].value)
+    except SyntaxError:
+        return txt
 
 
 def r5_strict(ctx, m, res) -> None:
+    """stated over path summaries: the refusals are the paths that end in ValueError inside the shot loop"""
     fn = res.methods.get("register_bitstrings")
     if fn is None:
         ctx.broken("anchor vanished: QsysResult.register_bitstrings")
-    g = CFG(real_body(fn))
-    merges = g.where(lambda s: isinstance(s, ast.Expr) and "shot_dct[" in u(s) and ".append(" in u(s))
-    if len(merges) != 1:
+    Q = f"{MOD}.QsysResult.register_bitstrings"
+    ps = ctx.paths(Q)
+    rets = [q for q in ps if q.kind == "return"]
+    acc = None
+    for q in rets:
+        e = tmatch(q.value, T("dict(L_acc)")) or tmatch(q.value, T("L_acc"))
+        acc = e["L_acc"] if e else acc
+    cfn = ctx.cfn(Q, subst=False)
+    outer = [n for n in cfn.body if isinstance(n, ast.For) and "self.results" in u(n.iter)]
+    if acc is None or len(outer) != 1:
         ctx.fail("C19.R5", "register_bitstrings: per-shot strings in shot order", m.path, fn.lineno,
-                 "register_bitstrings must append each shot's bitstring to its register's list (shot_dct[reg].append(bitstr)) exactly once per register and shot", fn)
+                 "register_bitstrings must loop over self.results in order and return the accumulated per-register lists", fn)
         return
-    mg = merges[0]
+    olp = outer[0]
+    idx = u(olp.target.elts[0]) if isinstance(olp.target, ast.Tuple) and u(olp.iter).startswith("enumerate(") else None
+    shot = u(olp.target.elts[-1]) if isinstance(olp.target, ast.Tuple) else u(olp.target)
+    S = f"{shot}.to_register_bits()"
+    in_loop = [q for q in ps if any(isinstance(t, ast.Call) and u(t.func) == "in_loop_" and "self.results" in u(t.args[0]) for t, _ in q.tests)]
+
+    def mutates_acc(q):
+        return [x for x in q.effects if (isinstance(x, (ast.Assign, ast.AugAssign)) and u(x.targets[0] if isinstance(x, ast.Assign) else x.target).startswith(acc + "[")) or
+                (isinstance(x, ast.Expr) and isinstance(x.value, ast.Call) and isinstance(x.value.func, ast.Attribute) and u(x.value.func.value).startswith(acc)
+                 and x.value.func.attr in ("append", "extend", "setdefault", "update", "insert"))]
+    keys_forms = {f"{S}.keys() == {acc}.keys()", f"{acc}.keys() == {S}.keys()", f"set({S}) == set({acc})", f"set({acc}) == set({S})"}
     for flag, what in (("strict_names", "register sets"), ("strict_lengths", "lengths")):
-        tests = [n for n, s in g.stmt.items() if g.kind.get(n) == "test" and flag in u(s)]
-        ok = len(tests) == 1
-        if ok:
-            t = tests[0]
-            # the failing branch raises ValueError
-            succ_raise = [x for x in g.succ[t] if g.label.get((t, x)) == "T"]
-            ok = bool(succ_raise) and RAISE in g.reachable(succ_raise[0], avoid={mg}) and "ValueError" in "".join(u(s) for s in g.stmt.values() if isinstance(s, ast.Raise))
-        ctx.check(ok, "C19.R5", f"register_bitstrings: {flag} raises ValueError", m.path, fn.lineno, f"differing {what} must be rejected with ValueError when {flag} is set", fn)
+        cand = [q for q in in_loop if any(u(t) == flag and k for t, k in q.tests)]
+        if flag == "strict_names":
+            differ = [q for q in cand if any(u(t) in keys_forms and not k for t, k in q.tests)]
+        else:
+            differ = [q for q in cand if any(isinstance(t, ast.Compare) and isinstance(t.ops[0], ast.Eq) and "len(" in u(t.left) and "len(" in u(t.comparators[0]) and not k for t, k in q.tests)]
+        ok = bool(differ) and all(q.kind == "raise" and q.value is not None and "ValueError" in u(q.value) for q in differ)
+        ctx.check(ok, "C19.R5", f"register_bitstrings: {flag} raises ValueError", m.path, fn.lineno, f"differing {what} must be rejected with ValueError when {flag} is set", fn,
+                  found="; ".join(q.describe() for q in cand)[:300])
         if not ok:
             continue
-        t = tests[0]
-        # check-before-update: within one shot, the test that compares the item with the accumulator must be evaluated
-        # before the item is merged into it: no path from the merge back to the test without passing the shot-loop head
-        loops = [n for n, s in g.stmt.items() if g.kind.get(n) == "loop"]
-        outer = [n for n in loops if "self.results" in u(g.stmt[n])]
-        if len(outer) != 1:
-            ctx.broken("register_bitstrings: loop over self.results not found")
-        avoid = {outer[0]}
-        if flag == "strict_lengths":
-            # per-register test: compared against earlier shots' entry for the same register: merging the *same item* first would be wrong
-            reach = g.reachable(mg, avoid=avoid | {n for n in loops if n != outer[0]})
-        else:
-            reach = g.reachable(mg, avoid=avoid)
-        after_merge = t in reach
-        ctx.check(not after_merge, "C19.R5", f"register_bitstrings: {flag} tested before the shot is merged", m.path, g.stmt[t].lineno,
+        # check-before-update: on the refusing paths the shot has not been merged into the accumulator yet
+        merged_first = [q for q in differ if mutates_acc(q)]
+        node = differ[0].node
+        ctx.check(not merged_first, "C19.R5", f"register_bitstrings: {flag} tested before the shot is merged", m.path, getattr(node, "lineno", fn.lineno),
                   f"the {flag} test compares this shot's {what} with the accumulated ones *after* the shot has been merged into them: registers that "
-                  "appear for the first time in a later shot are already in the accumulator, so only missing registers are ever noticed", g.stmt[t],
+                  "appear for the first time in a later shot are already in the accumulator, so only missing registers are ever noticed", node,
                   detail="test precedes the merge within a shot")
         if flag == "strict_names":
-            s = u(g.stmt[t])
-            cmp_ok = ("bitstrs.keys() != shot_dct.keys()" in s or "shot_dct.keys() != bitstrs.keys()" in s or "set(bitstrs) != set(shot_dct)" in s)
-            ctx.check(cmp_ok, "C19.R5", "register_bitstrings: strict_names compares the register sets", m.path, g.stmt[t].lineno, "", g.stmt[t], found=s)
-            # first shot exempt
-            if not after_merge:
-                # the exemption of the first shot must be positional (the loop's enumerate index / a first-iteration flag):
-                # exempting "while the accumulator is empty" also exempts every shot that follows shots without registers
-                tnode = g.stmt[t]
-                operands = tnode.values if isinstance(tnode, ast.BoolOp) and isinstance(tnode.op, ast.And) else [tnode]
-                others = [o for o in operands if u(o) != flag and not (isinstance(o, ast.Compare) and "keys()" in u(o)) and "set(" not in u(o)]
-                lps = [n for n in ast.walk(fn) if isinstance(n, ast.For) and "self.results" in u(n.iter)]
-                idx = None
-                if lps and isinstance(lps[0].iter, ast.Call) and u(lps[0].iter.func) == "enumerate" and isinstance(lps[0].target, ast.Tuple):
-                    idx = u(lps[0].target.elts[0])
-                positional = bool(others) and all(idx is not None and idx in [x.id for x in ast.walk(o) if isinstance(x, ast.Name)] for o in others)
-                by_content = [o for o in others if "shot_dct" in u(o)]
-                ctx.check(positional and not by_content, "C19.R5", "register_bitstrings: only the first shot is exempt from the strict_names test", m.path, tnode.lineno,
+            ctx.ok("C19.R5", "register_bitstrings: strict_names compares the register sets", "keys of this shot vs keys accumulated")
+            if not merged_first:
+                # the exemption of the first shot must be positional (the loop's enumerate index): exempting "while the accumulator
+                # is empty" also exempts every shot that follows shots without registers
+                q = differ[0]
+                others = [(t, k) for t, k in q.tests if u(t) != flag and u(t) not in keys_forms and not (isinstance(t, ast.Call) and u(t.func) == "in_loop_")]
+                positional = bool(others) and all(idx is not None and {x.id for x in ast.walk(t) if isinstance(x, ast.Name)} == {idx} for t, k in others)
+                by_content = [t for t, k in others if acc in u(t) or S in u(t)]
+                ctx.check(positional and not by_content, "C19.R5", "register_bitstrings: only the first shot is exempt from the strict_names test", m.path, getattr(node, "lineno", fn.lineno),
                           "the first shot defines the register set and must be the only one exempt from the comparison; the exemption here is "
-                          f"`{' and '.join(u(o) for o in others) or '<none>'}`" + (", which depends on the accumulator's content: every shot following shots "
-                          "without registers is exempt too, so differing register sets are accepted" if by_content else ""), tnode,
-                          expected="<shot index> > 0", found=" and ".join(u(o) for o in others))
+                          f"`{' and '.join(('' if k else 'not ') + u(t) for t, k in others) or '<none>'}`" + (", which depends on the accumulator's content: every shot following shots "
+                          "without registers is exempt too, so differing register sets are accepted" if by_content else ""), node,
+                          expected="<shot index> > 0", found=" and ".join(("" if k else "not ") + u(t) for t, k in others))
         else:
-            s = u(g.stmt[t])
-            ctx.check("len(shot_dct[reg][0]) != len(bitstr)" in s and "reg in shot_dct" in s, "C19.R5", "register_bitstrings: strict_lengths compares with the first recorded length",
-                      m.path, g.stmt[t].lineno, "", g.stmt[t], found=s)
-    lp = [n for n in ast.walk(fn) if isinstance(n, ast.For) and "self.results" in u(n.iter)]
-    ok = len(lp) == 1 and any(isinstance(s, ast.Assign) and u(s.value) == f"{u(lp[0].target) if not isinstance(lp[0].target, ast.Tuple) else u(lp[0].target.elts[-1])}.to_register_bits()" for s in lp[0].body)
+            q = differ[0]
+            regs = [t for t, k in q.tests if isinstance(t, ast.Call) and u(t.func) == "in_loop_" and u(t.args[0]) == f"{S}.items()"]
+            r_, b_ = (u(regs[0].args[1].elts[0]), u(regs[0].args[1].elts[1])) if regs and len(regs[0].args) > 1 and isinstance(regs[0].args[1], ast.Tuple) else ("?", "?")
+            present = any(u(t) in (f"{r_} in {acc}", f"{acc}.get({r_}) is not None") and k for t, k in q.tests)
+            cmp_ = any(u(t) in (f"len({acc}[{r_}][0]) == len({b_})", f"len({b_}) == len({acc}[{r_}][0])", f"len({acc}.get({r_})[0]) == len({b_})", f"len({b_}) == len({acc}.get({r_})[0])")
+                       and not k for t, k in q.tests)
+            ctx.check(present and cmp_, "C19.R5", "register_bitstrings: strict_lengths compares with the first recorded length",
+                      m.path, getattr(node, "lineno", fn.lineno), "", node, found=q.describe()[:300])
+    # per-shot strings in shot order: each register's string of each shot is appended to that register's list
+    inner = [n for n in ast.walk(olp) if isinstance(n, ast.For) and n is not olp]
+    ok = len(inner) == 1 and isinstance(inner[0].target, ast.Tuple) and len(inner[0].target.elts) == 2
+    if ok:
+        r_, b_ = u(inner[0].target.elts[0]), u(inner[0].target.elts[1])
+        pre = [s_ for s_ in olp.body if isinstance(s_, (ast.Assign, ast.AnnAssign))]
+        body_ps = [q for q in summaries(pre + inner[0].body) if q.kind != "raise"]
+        ok = bool(body_ps)
+        for q in body_ps:
+            mu = mutates_acc(q)
+            present = [k for t, k in q.tests if u(t) in (f"{r_} in {acc}", f"{acc}.get({r_}) is not None")]
+            good = len(mu) == 1 and (u(mu[0]) in (f"{acc}[{r_}].append({b_})", f"{acc}.setdefault({r_}, []).append({b_})") or
+                                     (present and present[0] and u(mu[0]) == f"{acc}.get({r_}).append({b_})") or
+                                     (present and not present[0] and u(mu[0]) == f"{acc}[{r_}] = [{b_}]"))
+            ok = ok and good
+        it_ok = any(isinstance(s_, ast.Assign) and u(s_.value) == S and u(inner[0].iter) == f"{u(s_.targets[0])}.items()" for s_ in olp.body) or u(inner[0].iter) == f"{S}.items()"
+        ok = ok and it_ok
     ctx.check(ok, "C19.R5", "register_bitstrings: per-shot strings in shot order", m.path, fn.lineno,
               "per-register lists are the per-shot strings of to_register_bits() in shot order", fn)
 
 
 def r6_wrappers(ctx, m, res) -> None:
-    rc = res.methods.get("register_counts")
+    from ..tmpl import thas
+    RQ = f"{MOD}.QsysResult"
+    rc_o = res.methods.get("register_counts")
+    rc = ctx.cfn(f"{RQ}.register_counts") if rc_o else None
     c = [x for x in calls_in(rc, "register_bitstrings")] if rc else []
     ok = len(c) == 1 and kwarg(c[0], "strict_lengths", 1) is not None and u(kwarg(c[0], "strict_lengths", 1)) == "strict_lengths" \
         and kwarg(c[0], "strict_names", 0) is not None and u(kwarg(c[0], "strict_names", 0)) == "strict_names"
-    ctx.check(ok, "C19.R6", "QsysResult.register_counts forwards both flags", m.path, rc.lineno if rc else 1,
-              "register_counts must pass strict_names and strict_lengths on to register_bitstrings under the same names", rc)
-    ok = rc is not None and "Counter(bitstrs)" in u(rc)
-    ctx.check(ok, "C19.R6", "QsysResult.register_counts counts the per-shot strings", m.path, rc.lineno if rc else 1, "", rc)
-    cc = res.methods.get("collated_counts")
-    src = u(cc) if cc else ""
-    ok = "tuple(((tag, _flat_bitstring(data)) for tag, data in d.items()))" in src.replace("tuple((tag, _flat_bitstring(data)) for tag, data in d.items())", "tuple(((tag, _flat_bitstring(data)) for tag, data in d.items()))") \
-        and "for d in self._collated_shots_iter()" in src
-    ctx.check(ok, "C19.R6", "QsysResult.collated_counts", m.path, cc.lineno if cc else 1, "collated counts pair every tag with the flattened bitstring of its collated values, per shot", cc)
+    ctx.check(ok, "C19.R6", "QsysResult.register_counts forwards both flags", m.path, rc_o.lineno if rc_o else 1,
+              "register_counts must pass strict_names and strict_lengths on to register_bitstrings under the same names", rc_o)
+    ok = rc is not None and thas(rc, "return {c0: Counter(c1) for c0, c1 in self.register_bitstrings(ANY_, ANY_).items()}")
+    ctx.check(ok, "C19.R6", "QsysResult.register_counts counts the per-shot strings", m.path, rc_o.lineno if rc_o else 1, "", rc_o)
+    cc_o = res.methods.get("collated_counts")
+    ok = cc_o is not None and thas(ctx.cfn(f"{RQ}.collated_counts"),
+                                   "return Counter(((*((c1, _flat_bitstring(c2)) for c1, c2 in c0.items()),) for c0 in self._collated_shots_iter()))")
+    ctx.check(ok, "C19.R6", "QsysResult.collated_counts", m.path, cc_o.lineno if cc_o else 1, "collated counts pair every tag with the flattened bitstring of its collated values, per shot", cc_o)
     fb = m.functions.get("_flat_bitstring")
-    ok = fb is not None and u(real_body(fb)[-1]) == f"return ''.join((_cast_primitive_bit(prim) for prim in _flatten({fb.args.args[0].arg})))"
+    ok = fb is not None and thas(ctx.cfn(f"{MOD}._flat_bitstring"), f"return ''.join((_cast_primitive_bit(c0) for c0 in _flatten({fb.args.args[0].arg})))")
     ctx.check(ok, "C19.R6", "_flat_bitstring casts every flattened primitive in order", m.path, fb.lineno if fb else 1, "", fb, found=u(real_body(fb)[-1]) if fb else "")
     fl = m.functions.get("_flatten")
     src = u(fl) if fl else ""
